@@ -61,6 +61,21 @@ func (m *ClientMap) SendQueue(addr net.Addr) chan []byte {
 	return m.inner.SendQueue(addr, time.Now())
 }
 
+// trySend puts p in the send queue corresponding to addr, creating the queue if
+// necessary, without blocking. It returns false if the queue is full. The send
+// happens with the lock held, so that the queue cannot be expired (and closed)
+// between being looked up and being sent to.
+func (m *ClientMap) trySend(addr net.Addr, p []byte) bool {
+	m.lock.Lock()
+	defer m.lock.Unlock()
+	select {
+	case m.inner.SendQueue(addr, time.Now()) <- p:
+		return true
+	default:
+		return false
+	}
+}
+
 // clientMapInner is the inner type of ClientMap, implementing heap.Interface.
 // byAge is the backing store, a heap ordered by LastSeen time, to facilitate
 // expiring old client records. byAddr is a map from addresses (i.e., ClientIDs)
